@@ -27,6 +27,7 @@ func init() {
 			m.RunPratt(s, "R-PRATT")        // the ternary nests to the right in its else part
 			m.RunKinds(s, "R-KINDS")        // what a Go value becomes decides its truth: a nil slice is an empty array, not nil
 			m.RunParserBuffers(s, "R-KEEP") // the branches a statement has collected are its own: no list of the parser is reused across nested statements
+			m.RunDebugReaders(s, "R-LOOP")  // which branch is taken and which conditions are evaluated does not depend on the debug setting
 			m.RunEvalState(s, "R-LOOP")     // evaluation keeps no flags between constructs
 			m.RunErrLayer(s, "R-ERRLAYER")  // evaluation faults are raised by evaluation, not while parsing
 			m.RunDirMode(s, "R-DIRMODE")    // text right after a bare @else / @end / @break / @continue stays text, also when it starts with "("
